@@ -77,7 +77,7 @@ def main():
         sh(f"git -C /repo worktree remove --force /tmp/wt/m{i}")
     with open(mpath, "w") as f:
         det = sum(1 for r in allrows if r[2] == "DETECTED")
-        f.write(f"# Seeded changes vs checks (quick tier), /repo HEAD {head[:7]}\n\n{len(allrows)} changes from six waves of independent sub-agents; {det} detected"
+        f.write(f"# Seeded changes vs checks (quick tier), /repo HEAD {head[:7]}\n\n{len(allrows)} changes from seven waves of independent sub-agents; {det} detected"
                 f"{', ' + str(len(allrows) - det) + ' not (see the verdict column; NEUTRALISED = made ineffective by a repair of the unchanged tree)' if det != len(allrows) else ''}.\n\n"
                 "| seeded change | check | verdict | first new signature | s |\n|---|---|---|---|---|\n")
         for row in allrows:
